@@ -195,16 +195,10 @@ class MPRNLRI(Attribute, Family):
         # - 16-byte IPv6 nexthops are valid (could be global or link-local)
         # - With LLNH negotiated, 16-byte link-local (fe80::/10) is explicitly allowed
         # - Semantic interpretation of 16-byte NH depends on LLNH negotiation
-        if negotiated.nexthop:
-            if len_nh in (16, 32, 24):
-                nh_afi = AFI.ipv6
-            elif len_nh in (4, 12):
-                nh_afi = AFI.ipv4
-            else:
-                raise Notify(
-                    3, 0, 'unsupported family {} {} with extended next-hop capability enabled'.format(afi, safi)
-                )
-            length, _ = Family.size[(nh_afi, safi)]
+        # RFC 8950: an IPv6 next-hop is legal for the <AFI, SAFI> the extended next-hop capability
+        # was exchanged for, and for those only; every other family keeps its own lengths
+        if (afi, safi, AFI.ipv6) in negotiated.nexthop and (AFI.ipv6, safi) in Family.size:
+            length = length + Family.size[(AFI.ipv6, safi)][0]
 
         if len_nh not in length:
             raise Notify(
